@@ -463,6 +463,9 @@ T3_ENTRIES = ["init", "ns-portion", "m.py", "sub/init", "pkgutil-ns"]  # (pkguti
 def run_three_paths(griffe, acc):
     for combo in itertools.product(T3_ENTRIES, repeat=3):
         files = {f"s{i + 1}/" + ENTRIES[n][0]: ENTRIES[n][1] for i, n in enumerate(combo)}
+        for i, n in enumerate(combo):
+            if n in ("init", "pkgutil-ns"):
+                files[f"s{i + 1}/p/mod{i + 1}.py"] = f"y = {i + 1}\n"  # (a module of its own next to every __init__: which portions count shows in which modules exist)
         cd = {"family": "three-paths", "layout": list(combo)}
         with sandbox.scratch_dir("c14t") as d:
             sandbox.write_tree(d, files)
